@@ -72,3 +72,63 @@ Proof.
   intros Phi Hinc lo hi y s1 s2 Hs Hy Hw. split; [apply acc_antitone|apply expected_draws_monotone]; assumption.
 Qed.
 Print Assumptions C14_retry_mass_monotone.
+
+(** ** Positive-semidefinite covariance: the second moment and the covariance the full Andrieu-Thoms
+    proposals draw from, and the recursive covariance of the adaptive eigenvector proposals (whose
+    eigenvalues are the jump scales), stay positive semidefinite through every update, for every
+    acceptance history and every sequence of positions. *)
+From Epsie Require Import AdaptM AdaptM_proofs.
+
+Theorem C14_at_fullcov_psd :
+  forall (p : @atf_state R) n nsteps ar x,
+  f_decayc p = exp (- (6 / 10) * ln (IZR (f_T p))) ->
+  length x = n -> length (f_mean p) = n -> psd n (f_ucov p) -> psd n (f_cov p) ->
+  psd n (f_ucov (atf_update p nsteps ar x)) /\ psd n (f_cov (atf_update p nsteps ar x)).
+Proof. exact atf_cov_psd. Qed.
+Print Assumptions C14_at_fullcov_psd.
+
+Theorem C14_at_componentwise_fullcov_psd :
+  forall (p : @atcf_state R) n nsteps ars x,
+  g_decayc p = exp (- (6 / 10) * ln (IZR (g_T p))) ->
+  length x = n -> length (g_mean p) = n -> length (g_loglam p) = n -> length ars = n ->
+  psd n (g_ucov p) -> (forall w, length w = n -> 0 <= @quad R _ (g_cov p) w) ->
+  psd n (g_ucov (atcf_update p nsteps ars x))
+  /\ forall w, length w = n -> 0 <= @quad R _ (g_cov (atcf_update p nsteps ars x)) w.
+Proof. exact atcf_cov_psd. Qed.
+Print Assumptions C14_at_componentwise_fullcov_psd.
+
+Theorem C14_eigenvector_covariance_psd :
+  forall (p : @rm_state R) n cov mu nsteps ar x,
+  (1 <= r_start p)%Z -> length x = n -> length mu = n -> psd n cov ->
+  psd n (fst (fst (eigc_update p cov mu nsteps ar x))) /\ length (snd (fst (eigc_update p cov mu nsteps ar x))) = n.
+Proof. exact eigc_psd. Qed.
+Print Assumptions C14_eigenvector_covariance_psd.
+
+(** the exact quadratic-form identity behind them: w'U'w = (1-d) w'Uw + d (df.w)^2 *)
+Theorem C14_second_moment_step :
+  forall (d : R) (U : list (list R)) (df w : list R), length df = length w -> shaped (length w) U ->
+  @quad R _ (@ucov_step R _ d U df) w = (1 - d) * @quad R _ U w + d * (@vdot R _ df w) ^ 2.
+Proof. exact ucov_step_quad. Qed.
+Print Assumptions C14_second_moment_step.
+
+(** non-vacuity: the identity matrix, the initial second moment, is positive semidefinite *)
+Example C14_identity_psd : psd 2 [[1; 0]; [0; 1]].
+Proof.
+  split; [split; [reflexivity|repeat constructor]|]. intros [|a [|b [|c w]]] Hw; try discriminate.
+  unfold quad, mvec, vdot. cbn. nra.
+Qed.
+
+(** along whole histories (every reachable adaptation state) *)
+Theorem C14_at_fullcov_psd_forever :
+  forall n p (hist : list (Z * R * list R)),
+  Forall (fun h => length (snd h) = n) hist -> atf_ok n p ->
+  atf_ok n (fold_left (fun q h => atf_update q (fst (fst h)) (snd (fst h)) (snd h)) hist p).
+Proof. exact atf_ok_forever. Qed.
+Print Assumptions C14_at_fullcov_psd_forever.
+
+Theorem C14_eigenvector_covariance_psd_forever :
+  forall n (p : @rm_state R) cov mu (hist : list (Z * R * list R)),
+  (1 <= r_start p)%Z -> Forall (fun h => length (snd h) = n) hist -> length mu = n -> psd n cov ->
+  psd n (fst (fst (eigc_run p (cov, mu) hist))) /\ length (snd (fst (eigc_run p (cov, mu) hist))) = n.
+Proof. exact eigc_psd_forever. Qed.
+Print Assumptions C14_eigenvector_covariance_psd_forever.
